@@ -129,6 +129,19 @@ class Trip(object):
         cls.installed = True
 
 
+def same_value(was, now, widening=False):
+    """denotations are ["cst", size, sorted alternatives]; equal sets, or -- for the
+    operands of a simplify / merge called with widening=True, which asks for an
+    over-approximation -- a superset"""
+    if was[0] != "cst" or now[0] != "cst":
+        return was == now
+    if was[1] != now[1]:
+        return False
+    if widening:
+        return set(was[2]) <= set(now[2])
+    return set(was[2]) == set(now[2])
+
+
 class Failure(Exception):
     def __init__(self, vclass, detail):
         Exception.__init__(self, vclass)
@@ -153,6 +166,7 @@ class Case(object):
         self.order = []
         self.maps = {}
         self.twins = {}  # same writes, never used as an operand / evaluated / composed
+        self.widened = set()
         self.held = {}
         self.mm = MemoryMap()
         self.mm2 = MemoryMap()
@@ -179,7 +193,16 @@ class Case(object):
             try:
                 v = e.eval(env)
                 if v._is_cst:
-                    return ["cst", v.size, v.v]
+                    return ["cst", v.size, [v.v]]
+                if v._is_vec and not v._is_top:
+                    # a vec denotes a set of alternatives
+                    alts = set()
+                    for a in v.l:
+                        a = a.simplify() if hasattr(a, "simplify") else a
+                        if not a._is_cst:
+                            return ["sym"]
+                        alts.add(a.v & ((1 << a.size) - 1))
+                    return ["cst", v.size, sorted(alts)]
                 return ["sym"]
             except Exception as x:
                 return ["exc", type(x).__name__]
@@ -280,13 +303,15 @@ class Case(object):
             out.append("b:" + raw.hex())
         return out
 
-    def check_twins(self, op):
+    def check_twins(self, op, widening=False):
         for mid, tw in self.twins.items():
             m = self.maps.get(mid)
             if m is None or tw is None:
                 continue
             a, b = self._map_state(m), self._map_state(tw)
             self.decided += 1
+            if widening:
+                self.widened.add(mid)
             if set(a[0]) != set(b[0]):
                 raise Failure("map-differs-from-unused-twin", {"map": mid, "what": "locations", "used": sorted(a[0])[:6], "twin": sorted(b[0])[:6]})
             for l in a[0]:
@@ -294,17 +319,17 @@ class Case(object):
                 if va[0] != vb[0]:
                     raise Failure("map-differs-from-unused-twin", {"map": mid, "what": "size", "loc": l, "used": va, "twin": vb})
                 for k in range(K):
-                    if va[1 + k][0] == "cst" and vb[1 + k][0] in ("cst", "exc") and va[1 + k] != vb[1 + k] or (vb[1 + k][0] == "cst" and va[1 + k][0] == "exc"):
+                    if va[1 + k][0] == "cst" and vb[1 + k][0] in ("cst", "exc") and not same_value(vb[1 + k], va[1 + k], widening or mid in self.widened) or (vb[1 + k][0] == "cst" and va[1 + k][0] == "exc"):
                         raise Failure("map-differs-from-unused-twin", {"map": mid, "what": "value", "loc": l, "valuation": k, "used": va[1 + k], "twin": vb[1 + k]})
             if a[1] != b[1]:
                 raise Failure("map-differs-from-unused-twin", {"map": mid, "what": "memory", "used": a[1][:6], "twin": b[1][:6]})
         if self._join_parts(self.mm.read(0, 160)) != self._join_parts(self.mm2.read(0, 160)):
             raise Failure("memorymap-differs-from-unused-twin", {"used": self._join_parts(self.mm.read(0, 160))[:8], "twin": self._join_parts(self.mm2.read(0, 160))[:8]})
 
-    def check_maps(self, op):
+    def check_maps(self, op, widening=False):
         from ..heap import fingerprint
 
-        self.check_twins(op)
+        self.check_twins(op, widening)
         for mid, snap in self.held.items():
             m = self.maps.get(mid)
             if m is None:
@@ -325,8 +350,10 @@ class Case(object):
                     nv = self.evaluate(v, k)
                     if rec["vals"][k][0] == "cst" and nv[0] in ("cst", "exc"):
                         self.decided += 1
-                        if nv != rec["vals"][k]:
+                        if not same_value(rec["vals"][k], nv, widening):
                             raise Failure("map-content-changed", {"map": mid, "loc": l, "valuation": k, "was": rec["vals"][k], "now": nv, "expr": str(v)[:200]})
+                        if widening:
+                            rec["vals"][k] = nv
                     else:
                         self.incomparable += 1
                 rec["fp"] = f
@@ -335,7 +362,8 @@ class Case(object):
     def check(self, op, final=False):
         from ..heap import fingerprint, walk
 
-        self.check_maps(op)
+        widening = bool((op.get("opts") or {}).get("widening"))
+        self.check_maps(op, widening)
 
         for id_ in self.order:
             it = self.items[id_]
@@ -360,8 +388,10 @@ class Case(object):
                 was = it.vals[k]
                 if was[0] == "cst" and now[0] == "cst":
                     self.decided += 1
-                    if was != now:
+                    if not same_value(was, now, widening):
                         raise Failure("value-changed", {"item": id_, "valuation": k, "was": was, "now": now, "expr": str(e)[:300]})
+                    if widening and was != now:
+                        it.vals[k] = now  # widened on request: the new baseline
                 elif was[0] == "cst" and now[0] == "exc":
                     raise Failure("value-changed", {"item": id_, "valuation": k, "was": was, "now": now, "expr": str(e)[:300]})
                 else:
@@ -468,7 +498,8 @@ class Case(object):
         if k == "simplify":
             opts = dict(op.get("opts") or {})
             if op.get("fresh"):
-                x = {"+": lambda: (a + b), "&": lambda: (a & b), "tst": lambda: tst(a == b, a, b), "slc": lambda: (a ^ b)[0 : max(1, a.size // 2)], "comp": lambda: composer([a, b])}[op["shape"]]()
+                x = {"+": lambda: (a + b), "&": lambda: (a & b), "tst": lambda: tst(a == b, a, b), "slc": lambda: (a ^ b)[0 : max(1, a.size // 2)], "comp": lambda: composer([a, b]),
+                     "vec": lambda: vec([a, b]), "tstvec": lambda: tst(self.regs["a1"] == cst(1, 1), a, b) if "a1" in self.regs else tst(a == b, a, b)}[op["shape"]]()
                 return x.simplify(**opts)
             return a.simplify(**opts)
         if k == "eval":
@@ -732,8 +763,9 @@ class Case(object):
 # generation (adaptive: looks at the live pool)
 # ---------------------------------------------------------------------------
 class Gen(object):
-    def __init__(self):
+    def __init__(self, known=()):
         self.nid = 0
+        self.known = set(known)
         self.reset(None)
 
     def reset(self, r):
@@ -754,8 +786,12 @@ class Gen(object):
         for name, size in regs:
             if size in (8, 32) or r.random() < 0.6:
                 ops.append({"op": "leaf", "k": "reg", "name": name, "size": size, "pub": self.newid()})
+        # open finding `mem-equality-ignores-endianness`: two mem expressions that differ only
+        # by their endianness print (hence compare and hash) alike; while it is listed, a case
+        # uses one endianness for all its mem leaves (carve-out by avoidance)
+        one_en = r.choice([1, 1, -1]) if "mem-equality-ignores-endianness" in self.known else None
         for _ in range(r.choice([1, 2, 3])):
-            ops.append({"op": "leaf", "k": "mem", "base": "a32", "disp": r.randrange(-8, 24), "size": r.choice([8, 16, 32, 64]), "en": r.choice([1, 1, -1]), "pub": self.newid()})
+            ops.append({"op": "leaf", "k": "mem", "base": "a32", "disp": r.randrange(-8, 24), "size": r.choice([8, 16, 32, 64]), "en": one_en or r.choice([1, 1, -1]), "pub": self.newid()})
         for size in (8, 16, 32, 64):
             m = (1 << size) - 1
             for v in r.sample([0, 1, m, 1 << (size - 1), m >> 1, r.getrandbits(size), 2, 3, size - 1], r.choice([2, 3, 4])):
@@ -767,7 +803,7 @@ class Gen(object):
         return r.choice(c) if c else None
 
     def op(self, r, case):
-        kinds = [("bin", 10), ("un", 1.5), ("call", 2), ("slice", 2), ("composer", 1.5), ("tst", 1.5), ("vec", 1), ("ext", 1.5), ("simplify", 5), ("eval", 2),
+        kinds = [("bin", 10), ("un", 1.5), ("call", 2), ("slice", 2), ("composer", 1.5), ("tst", 1.5), ("vec", 2), ("ext", 1.5), ("simplify", 5), ("eval", 2),
                  ("fresh_mut", 1), ("map_set", 6), ("map_get", 3), ("map_read_modify", 4), ("compose", 1), ("merge", 1), ("mmw", 1.5), ("mmr", 0.7), ("mm_use", 1.0), ("str", 1), ("pickle", 2), ("pickle_fresh", 1.5)]
         k = weighted(r, kinds)
         a = self.pick(r, case)
@@ -831,7 +867,7 @@ class Gen(object):
                 b = self.pick(r, case, sa)
                 if b is None:
                     return None
-                op.update({"fresh": True, "shape": r.choice(["+", "&", "tst", "slc", "comp"]), "b": b, "opts": opts, "pub": pub})
+                op.update({"fresh": True, "shape": r.choice(["+", "&", "tst", "slc", "comp", "vec", "vec", "tstvec"]), "b": b, "opts": opts, "pub": pub})
             else:
                 op.update({"fresh": False, "opts": opts})
         elif k == "eval":
@@ -920,7 +956,7 @@ def run(spec):
     Trip.install()
     rng = random.Random(spec.get("seed", 0))
     known = spec.get("known_keys", [])
-    gen = Gen()
+    gen = Gen(known)
     budget = [spec.get("cases", 20)]
     pend = []
     state = {"case": None}
